@@ -7,6 +7,12 @@ pub struct Int(pub(crate) i128);
 
 impl_to_from!(Int);
 
+impl Int {
+    /// CBOR int = uint / nint: -2^64 ..= 2^64 - 1
+    pub(crate) const MIN_VALUE: i128 = -(u64::MAX as i128) - 1;
+    pub(crate) const MAX_VALUE: i128 = u64::MAX as i128;
+}
+
 #[wasm_bindgen]
 impl Int {
     pub fn new(x: &BigNum) -> Self {
@@ -89,11 +95,12 @@ impl Int {
         let x = string
             .parse::<i128>()
             .map_err(|e| JsError::from_str(&format! {"{:?}", e}))?;
-        if x.abs() > u64::MAX as i128 {
+        if x < Int::MIN_VALUE || x > Int::MAX_VALUE {
             return Err(JsError::from_str(&format!(
-                "{} out of bounds. Value (without sign) must fit within 4 bytes limit of {}",
+                "{} out of bounds. Value must be within the CBOR int range {}..={}",
                 x,
-                u64::MAX
+                Int::MIN_VALUE,
+                Int::MAX_VALUE
             )));
         }
         Ok(Self(x))
